@@ -83,8 +83,14 @@ impl CleanMarkerStore {
                 format!("clean marker serialize failed: {:?}", e),
             )
         })?;
+        #[cfg(feature = "verif")]
+        crate::wal::verif::io_event_bytes("tmp_write", &tmp_path, 0, bytes.len() as u64, Some(&bytes));
         fs::write(&tmp_path, &bytes)?;
+        #[cfg(feature = "verif")]
+        crate::wal::verif::io_event("fsync", &tmp_path, 0, 0);
         fs::File::open(&tmp_path)?.sync_all()?;
+        #[cfg(feature = "verif")]
+        crate::wal::verif::io_event("rename", path, 0, 0);
         fs::rename(&tmp_path, path)?;
         Ok(())
     }
@@ -201,6 +207,8 @@ impl TopicCleanTracker {
     fn spawn_persister(tracker: &Arc<Self>, rx: mpsc::Receiver<String>) {
         let weak = Arc::downgrade(tracker);
         thread::spawn(move || {
+            #[cfg(feature = "verif")]
+            crate::wal::verif::set_thread_class(1);
             let mut pending = HashSet::new();
             loop {
                 match rx.recv_timeout(Duration::from_millis(5)) {
